@@ -47,7 +47,8 @@ type hold struct {
 	cond    *sync.Cond
 	holding bool
 	allow   int
-	pass    []string      // substrings of function names on the BEGIN's call stack
+	pass    []string      // substrings of function names on the BEGIN's call stack: let through (by allowance)
+	park    []string      // substrings that identify the transactions to keep parked; if set, everything ELSE counts as "pass"
 	watch   bool          // signal txDone when a transaction of the actor ends (commit done / rollback)
 	txDone  chan struct{} // buffered
 }
@@ -122,6 +123,9 @@ func holdHook(ev sqlwrap.Event) {
 	h.mu.Lock()
 	if h.holding {
 		matches := stackHas(h.pass)
+		if !matches && len(h.park) > 0 {
+			matches = !stackHas(h.park)
+		}
 		for h.holding {
 			if matches && h.allow > 0 {
 				h.allow--
